@@ -312,6 +312,8 @@ func vSatisfies(c vCons, v string) bool {
 
 // VH_C02_soundness: case = patternIndex*8 + cfgIndex.
 func VH_C02_soundness(caseID int) {
+	quick := caseID >= 1000
+	caseID %= 1000
 	pat := &vC02Catalogue[caseID/8]
 	cfg := vCfgs[caseID%8]
 	app := vNewApp(cfg)
@@ -336,7 +338,18 @@ func VH_C02_soundness(caseID int) {
 	}
 	app.startupProcess()
 
-	n := pat.lens[vChoice("plen", len(pat.lens))]
+	lens := pat.lens
+	if quick {
+		// quick tier: short paths only, plus the length of the pattern text for three patterns
+		lens = nil
+		pi := caseID / 8
+		for _, l := range pat.lens {
+			if l <= 7 || pi == 0 || pi == 11 || pi == 21 {
+				lens = append(lens, l)
+			}
+		}
+	}
+	n := lens[vChoice("plen", len(lens))]
 	p := vString("path", n)
 	vWirePath(p, cfg.unescape)
 	fctx := vDo(app, "GET", p)
